@@ -236,13 +236,14 @@ def _num_of(t):
 
 
 class Site:
-  __slots__ = ('kind', 'func', 'node', 'term', 'cls', 'eps', 'text', 'num')
+  __slots__ = ('kind', 'func', 'node', 'term', 'cls', 'eps', 'text', 'num', 'exp')
 
   def __init__(self, kind, func, node, term):
     self.kind, self.func, self.node, self.term = kind, func, node, term
     self.cls, self.eps = classify(term) if kind == 'div' else ('', None)
     self.text = pred.show(term)
     self.num = None
+    self.exp = None
 
   @property
   def key(self):
@@ -336,6 +337,7 @@ def sites(U, f, cache):
           ex = N.term(n.args[1], env) if len(n.args) > 1 else None
           if not (ex is not None and pred.is_const(ex) and isinstance(ex[1], int) and ex[1] >= 0):
             out.append(mk_site('power', f, n, N.term(n.args[0], env)))
+            out[-1].exp = purify(ex) if ex is not None else None
         else:
           out.append(mk_site(kind, f, n, N.term(n.args[0], env)))
     if isinstance(n, ast.BinOp) and isinstance(n.op, ast.Div):
@@ -345,6 +347,7 @@ def sites(U, f, cache):
       ex = N.term(n.right, env)
       if not (pred.is_const(ex) and isinstance(ex[1], (int, float)) and float(ex[1]) == int(ex[1]) and ex[1] >= 0):
         out.append(mk_site('power', f, n, N.term(n.left, env)))
+        out[-1].exp = purify(ex)
     if isinstance(n, ast.AugAssign) and isinstance(n.op, ast.Div):
       out.append(mk_site('div', f, n, N.term(n.value, env)))
     for c in ast.iter_child_nodes(n):
